@@ -68,6 +68,12 @@ def _inner_zip():
 def _root_spec(full, S):
     spec = [
         ["readme.txt", "f", "readme\n"],
+        # content that points outside: gophermap and link-file entries whose selectors climb out of the root
+        ["gm/gophermap", "f", "iinfo\n0Out abs\t/../secret.txt\n0Out rel\t../../secret.txt\n1Out dir\t/../rootx\n0In\t/readme.txt\n"
+                              "0Out two\t/dir/../../secret.txt\n"],
+        ["lk/.links", "f", "Name=Out abs\nType=0\nPath=/../secret.txt\nHost=+\nPort=+\n\nName=Out rel\nType=0\nPath=../../secret.txt\n\n"
+                           "Name=Out dir\nType=1\nPath=/../rootx\n"],
+        ["lk/in.txt", "f", "in\n"],
         ["dir/file.txt", "f", "file\n"],
         ["dir/sub/deep.txt", "f", "deep\n"],
         ["box.mbox", "f", sites.mbox_text(["inside one", "inside two"])],
@@ -112,6 +118,8 @@ def _outside_spec(variant):
     z = world.u(world.zip_bytes([["x.txt", "f", tag + " in zip\n", {}], ["stolen.txt", "f", tag, {}]]))
     spec = [
         ["secret.txt", "f", tag + "\n"],
+        ["secret.txt.abstract", "f", tag + " abstract of the outside file\n"],
+        ["rootx/.abstract", "f", tag + " abstract of the outside directory\n"],
         ["secret/inner.txt", "f", tag + " inner\n"],
         ["rootx/file.txt", "f", tag + " sibling\n"],
         ["rootx/readme.txt", "f", tag + " sibling readme\n"],
@@ -140,7 +148,7 @@ def _outside_spec(variant):
     return spec
 
 
-BASES = ["/", "/readme.txt", "/dir", "/dir/file.txt", "/dir/sub/deep.txt", "/box.mbox", "/md", "/page.html",
+BASES = ["/", "/gm", "/lk", "/gm", "/lk", "/readme.txt", "/dir", "/dir/file.txt", "/dir/sub/deep.txt", "/box.mbox", "/md", "/page.html",
          "/arc.zip", "/arc.zip/a.txt", "/arc.zip/d", "/arc.zip/d/b.txt", "/arc.zip/box.mbox", "/arc.zip/inner.zip",
          "/arc.zip/lnk", "/arc.zip/abs", "/arc.zip/abs2", "/arc.zip/up", "/arc.zip/rel", "/arc.zip/s.sh",
          "/arc.zip/m.pyg", "/arc.zip/md", "/arc.zip/t.html.tal", "/run.sh", "/hello.pyg", "/t.html.tal", "/c.txt.gz",
